@@ -219,6 +219,11 @@ def run(ck, facts, tier):
                 if init is not None and consts and set(consts) == {"Invariant"} and \
                         any(n.get("k") in ("index",) or (n.get("k") == "call" and callee_matches(n, "Index::index")) for n in walk(init)):
                     shape = True
+        # every pair is related and `i` is the parameter position: no element-dropping adaptor between zip() and enumerate()
+        from kit import adaptor_sites
+        dropped = adaptor_sites(facts, "chalk_ir", lambda k: k == zs.key)
+        if dropped:
+            shape = False
         if shape and has_call(th, "Iterator::zip") and has_call(th, "Iterator::enumerate"):
             ck.ok(R, "zip_substs", "zip_with(ambient.xform(variances[i] or Invariant), a_i, b_i) for every i")
         else:
